@@ -14,7 +14,7 @@ def load_model(modules):
                 m.unassumed.add(f['obligation'])
     for name in modules:
         mod = importlib.import_module('contracts.' + name)
-        for fn in ('build', 'build2', 'build3', 'build4', 'build5', 'build6', 'build7'):
+        for fn in ['build'] + ['build%d' % i for i in range(2, 20)]:
             if hasattr(mod, fn):
                 getattr(mod, fn)(m)
     return m
